@@ -60,6 +60,8 @@ def theory_axioms(formulas):
         ex = dsl.EXP(x)
         ax.append(ex > 0)
         ax.append(z3.Implies(x <= 0, ex <= 1))
+        ax.append(z3.Implies(x < 0, ex < 1))
+        ax.append(z3.Implies(x > 0, ex > 1))
         ax.append(z3.Implies(x >= 0, ex >= 1))
         ax.append(ex >= 1 + x)
         ax.append(z3.Implies(x == 0, ex == 1))
@@ -634,6 +636,11 @@ def value_attr(ex, st, v, attr, node):
 
 
 def obj_attr(ex, st, obj, attr, node):
+    """Attributes of library objects that are modelled as schema objects (A-LIB):
+    datetime: `.timestamp()` is the real number stored in the ghost field `theta` (seconds since the epoch)."""
+    from .symex import Intrinsic
+    if obj.cls == "datetime" and attr == "timestamp":
+        return _out(Intrinsic("datetime.timestamp", lambda ex_, st_, recv, a, k, n: _out(ex_.read_field(st_, recv, "theta", n), st_), recv=obj), st)
     return None
 
 
@@ -1224,7 +1231,17 @@ def m_math_ceil(ex, st, args, kwargs, node):
     return _out(-z3.ToInt(-v), st)
 
 
+def m_np_array(ex, st, args, kwargs, node):
+    """np.array of a python list of scalars: kept as the list (1-D); nested lists / matrices are handled in nplib"""
+    v = args[0]
+    if isinstance(v, PyList) and all(_isnum(x) or isinstance(x, bool) for x in v.items):
+        return _out(PyList(list(v.items)), st)
+    from . import nplib
+    return nplib.np_array(ex, st, args, kwargs, node)
+
+
 MODULE_FUNCS = {
+    "numpy.array": m_np_array,
     "warnings.warn": m_warn,
     "numpy.exp": m_np_exp,
     "numpy.random.normal": m_np_random_normal,
